@@ -1108,7 +1108,7 @@ class Interp:
             return BoundExt(v, name)
         if isinstance(v, Shape):
             return Unk('shape attribute', e)
-        if isinstance(v, GenList):
+        if isinstance(v, (GenList, _Repeat)):
             return BoundExt(v, name)
         if isinstance(v, (list, dict, str, tuple)):
             return BoundExt(v, name)
@@ -1536,6 +1536,11 @@ class Interp:
                 if isinstance(x, Arr):
                     return x.ndim == 0
                 return _is_pynum(x)
+            if last == 'repeat' and len(args) == 2 and 'axis' not in kw:
+                x, k = self._as_arr(args[0]), self._as_arr(args[1])
+                if isinstance(x, Arr) and x.mask is None and isinstance(k, Arr) and k.ndim == 0 and _len_label(k.poly):
+                    return _Repeat(x, _len_label(k.poly))
+                return Unk('np.repeat', e)
             if last == 'repeat':
                 return Unk('np.repeat', e)
             if last == 'unique':
@@ -1684,6 +1689,23 @@ class Interp:
 
     # ---- methods of symbolic values
     def method(self, recv, name, args, kw, e, mod):
+        if isinstance(recv, _Repeat):
+            # np.repeat(x, k) flattens x and repeats every element k times; .reshape(n, k) with n = len of x's first axis is then
+            # defined only when x has n elements in all, and gives out[i, j] == x[i, 0, ...]; .reshape(k, n) interleaves the rows
+            if name == 'reshape':
+                sh = list(args[0]) if len(args) == 1 and isinstance(args[0], (tuple, list)) else list(args)
+                labs = [(_len_label(v.poly) if isinstance(v, Arr) and v.ndim == 0 else None) for v in map(self._as_arr, sh)]
+                x = recv.x
+                if len(labs) == 2 and None not in labs and x.ndim >= 1 and x.dims[0]:
+                    if labs == [x.dims[0], recv.label]:
+                        p = x.poly
+                        for d in x.dims[1:]:
+                            if d is not None:
+                                p = alg.mk_fn('at', B(d, p), P(num(0)))
+                        return Arr((x.dims[0], recv.label), p, unit=x.unit)
+                    if labs == [recv.label, x.dims[0]]:
+                        return Unk('np.repeat(x, k).reshape(k, n): rows of the result interleave the elements of x instead of repeating each one', e, definite=True)
+            return Unk('np.repeat result used other than through reshape(n, k)', e)
         if isinstance(recv, Arr):
             if name in ('sum', 'any', 'all', 'max', 'min'):
                 return self._reduce(recv, kw.get('axis', args[0] if args else None), name, e)
@@ -1813,6 +1835,12 @@ class _WhereIdx:
 
     def sel_label(self):
         return 'sel:' + alg.show(self.mask.poly, 400)
+
+
+class _Repeat:
+    """np.repeat(x, k) with k the length of the axis ``label``, before it is reshaped"""
+    def __init__(self, x, label):
+        self.x, self.label = x, label
 
 
 class _Zip:
